@@ -11,7 +11,7 @@
    The proofs state the loop over an abstract list of pairs, so a rewrite of the function that
    computes the same matrix keeps them, and one that computes another matrix does not. *)
 From Coq Require Import QArith ZArith List Bool Lia.
-From SE Require Import Base.Num Base.Res Gen.Prelude Gen.Source Misc.Components Misc.ComponentsProofs.
+From SE Require Import Base.Num Base.Res Gen.Prelude Gen.Source Misc.Components Misc.ComponentsProofs Misc.GroupLoop.
 Import ListNotations.
 Local Open Scope nat_scope.
 
@@ -224,3 +224,19 @@ Example src_group_ex :
   Source.group_sound_events (fun a b => Z.eqb (Z.abs (a - b)) 1) (fun m => (2, [0; 1; 0; 1; 0])) [10; 20; 11; 21; 12]%Z
   = Ok [[10; 11; 12]; [20; 21]]%Z.
 Proof. vm_compute. reflexivity. Qed.
+
+(* … which is the model's group_sound_events (GroupLoop.group_by_loop_eq: the loop is the declarative grouping), so every
+   theorem about the model (partition, order kept, same sequence iff connected by a chain) is a theorem about what the
+   code as written returns, given a component labelling *)
+Theorem src_group_sound_events_is_model cmp evs :
+  let n := length evs in
+  let cc := fun m : coo => (0, labels (Z.to_nat (coo_rows m)) (edges_of n (rel_on cmp evs))) in
+  Source.group_sound_events cmp cc evs = Ok (map (map (ev evs)) (Components.group_sound_events n (rel_on cmp evs))).
+Proof.
+  intros n cc. subst n cc. rewrite src_group_sound_events_model, group_by_loop_eq. reflexivity.
+Qed.
+
+Theorem src_grouping_declarative cmp cc evs :
+  length (snd (cc (adjacency cmp evs))) = length evs ->
+  Source.group_sound_events cmp cc evs = Ok (map (map (ev evs)) (group_by (snd (cc (adjacency cmp evs))))).
+Proof. intro H. rewrite src_group_sound_events_loop by exact H. rewrite group_by_loop_eq. reflexivity. Qed.
